@@ -212,6 +212,9 @@ def check_property(pid, tier="quick", only=None, jobs=None, verbose=False, overr
 
 def write_replay(pid, o, rep):
     name = stable_name(o["name"]).replace("/", "_").replace(":", "_").replace(" ", "")
+    at = str((o.get("info") or {}).get("raised_at") or "")
+    if at:
+        name += "_at_" + at.split(":")[-1]      # one file per raise site
     path = os.path.join(VERIF, "replays", "%s-%s.json" % (pid, name[-150:]))
     doc = {"property": pid, "obligation": o["name"], "kind": o.get("kind"), "unit": o.get("unit"),
            "clause": (o.get("info") or {}).get("clause"), "info": o.get("info"),
